@@ -62,6 +62,52 @@ Theorem C13_feasible_iff : forall t ci,
   fam_within t (ci_bound ci) /\ fam_within t (ci_linear ci) /\ fam_within t (ci_nonlinear ci).
 Proof. exact feasible_iff. Qed.
 
+(* ... for every tolerance: without a tolerance (None) or without constraint information nothing is ever rejected *)
+Theorem C13_feasible_total : forall tol ci,
+  feasible tol ci = true <->
+  match tol, ci with
+  | Some t, Some c => fam_within t (ci_bound c) /\ fam_within t (ci_linear c) /\ fam_within t (ci_nonlinear c)
+  | _, _ => True
+  end.
+Proof. exact feasible_total. Qed.
+
+(* what the trackers retain from the delivered results (single vectors, batches, several evaluations): a "last"
+   tracker retains the last delivered result that has function values and whose every violation is within the
+   tolerance, and nothing iff there is no such result ... *)
+Theorem C13_tracker_last : forall tol items,
+  (forall j, tracked_last tol items = Some j ->
+     exists it, nth_error items j = Some it /\ ti_ok tol it = true /\
+       forall k' it', (j < k')%nat -> nth_error items k' = Some it' -> ti_ok tol it' = false) /\
+  (tracked_last tol items = None <-> forall k it, nth_error items k = Some it -> ti_ok tol it = false).
+Proof.
+  intros tol items. split; [|apply last_ok_none].
+  intros j H. destruct (last_ok_some tol items 0 j H) as (k & it & -> & Hk & Hok & Hl). exists it. auto.
+Qed.
+
+(* ... a "best" tracker (and BasicOptimizer) retains the first result of smallest objective among those that have
+   function values, a numeric objective and every violation within the tolerance; a result with a violation beyond
+   the tolerance is never retained, whatever its objective *)
+Theorem C13_tracker_best : forall tol items,
+  match tracked_best tol items with
+  | Some j => exists it o, nth_error items j = Some it /\ ti_ok tol it = true /\ ti_obj it = Some o /\
+                (forall k it' o', nth_error items k = Some it' -> ti_ok tol it' = true -> ti_obj it' = Some o' ->
+                                  o <= o' /\ ((k < j)%nat -> o < o'))
+  | None => forall k it, nth_error items k = Some it -> ti_ok tol it = true -> ti_obj it = None
+  end.
+Proof.
+  intros tol items. unfold tracked_best. pose proof (best_ok_spec tol items) as H.
+  destruct (best_ok tol items 0 None) as [[j o]|]; cbn in *; [|exact H].
+  destruct H as ((it & H1 & H2 & H3) & H4). exists it, o. auto.
+Qed.
+
+Theorem C13_retained_within_tolerance : forall t it, ti_ok (Some t) it = true ->
+  ti_fun it = true /\
+  match ti_info it with
+  | Some c => fam_within t (ci_bound c) /\ fam_within t (ci_linear c) /\ fam_within t (ci_nonlinear c)
+  | None => True
+  end.
+Proof. exact ti_ok_within. Qed.
+
 (* a variable farther than the tolerance outside a FINITE bound is always detected, whatever the other
    bounds are (in particular when lower and upper bounds each contain infinite entries) *)
 Theorem C13_outside_bound_detected : forall cfg x cons t i v l u,
@@ -119,6 +165,15 @@ Example C13_example :
   feasible (Some (1 # 2)) (info_of (create cfg [-1; 2] None)) = false.
 Proof. cbv zeta. split; [left; reflexivity | split; vm_compute; reflexivity]. Qed.
 
+(* non-vacuity of the tracker statements: three delivered results, the best objective belongs to an infeasible one *)
+Example C13_tracker_example :
+  let cfg := {| v_lower := [Fin 0]; v_upper := [PInf]; c_linear := None; c_nonlinear := None |} in
+  let it x o := {| ti_fun := true; ti_obj := Some o; ti_info := info_of (create cfg [x] None) |} in
+  let items := [it 1 3; it (-1) 0; it 2 2; it (-(1 # 2)) 1] in
+  tracked_last (Some (1 # 4)) items = Some 2%nat /\ tracked_best (Some (1 # 4)) items = Some 2%nat /\
+  tracked_best None items = Some 1%nat /\ tracked_last (Some (1 # 2)) items = Some 3%nat.
+Proof. cbv zeta. repeat split; vm_compute; reflexivity. Qed.
+
 Print Assumptions C13_create.
 Print Assumptions C13_diffs.
 Print Assumptions C13_diff_values.
@@ -126,6 +181,10 @@ Print Assumptions C13_violation_formula.
 Print Assumptions C13_inside_zero.
 Print Assumptions C13_outside_positive.
 Print Assumptions C13_feasible_iff.
+Print Assumptions C13_feasible_total.
+Print Assumptions C13_tracker_last.
+Print Assumptions C13_tracker_best.
+Print Assumptions C13_retained_within_tolerance.
 Print Assumptions C13_outside_bound_detected.
 Print Assumptions C13_outside_linear_detected.
 Print Assumptions C13_outside_nonlinear_detected.
